@@ -194,9 +194,12 @@ def run_twice(desc):
     else:
         Lr = sum(c * (W[i] * torch.outer(Xr[:, i], Xr[:, i])).sum() for i, c in ((0, 1.0), (1, 0.7)))
     gr, = torch.autograd.grad(Lr, PA2)
-    tol = 1e-6 / gap * 1e-4          # the 1/gap amplification of the forward accuracy (1e-10 relative)
+    # the eigenvectors of a pair at distance `gap` are only determined to (forward accuracy) / gap, and the gradient carries that error relative
+    # to its own 1/gap scale: 1e-9 / gap for the LAPACK-based methods, ten times that for davidson (min_eps 1e-13 on a level of 100); a
+    # gradient that treats the pair as degenerate is off by O(1) relative
+    tol = max(1e-9 / gap, 1e-5) * (10.0 if method == "davidson" else 1.0)
     err = float((gs[0] - gr).abs().max())
-    obs.check(err <= max(tol, 1e-5) * (1.0 + float(gr.abs().max())), "extra:grad1:" + mech, "gradient at a near-degenerate (gap %.0e) but separated pair differs from the dense "
+    obs.check(err <= tol * (1.0 + float(gr.abs().max())), "extra:grad1:" + mech, "gradient at a near-degenerate (gap %.0e) but separated pair differs from the dense "
               "reference by %.3e (scale %.2e)" % (gap, err, 1.0 + float(gr.abs().max())))
     obs.count("extra_repeated_backward_compared")
     obs.nontrivial = True
